@@ -403,7 +403,8 @@ impl UnionSchemaBuilder {
     pub fn variant_ignore_duplicates(&mut self, schema: Schema) -> Result<&mut Self, Error> {
         if let Some(name) = schema.name() {
             if let Some(current) = self.names.get(name).copied() {
-                if self.schemas[current] != schema {
+                // A reference to the named schema that is already in the union is that schema
+                if !matches!(schema, Schema::Ref { .. }) && self.schemas[current] != schema {
                     return Err(Details::GetUnionDuplicateNamedSchemas(name.to_string()).into());
                 }
             } else {
